@@ -276,7 +276,7 @@ def probe_frames():
     from BPTK_Py import DataCollector
     from BPTK_Py.scenariorunners.hybrid_runner import HybridRunner
     dc = DataCollector()
-    for t, snap in enumerate(PROBE_POPS, 1):
+    for t, snap in enumerate(PROBE_POPS + PROBE_POPS[:1], 1):   # t=3 repeats t=1: a/s1 and b/s1 are occupied, empty, occupied again
         m = new_model({"script": {}, "stop": 1, "pop": []})
         for ty, st, es in snap:
             a = m.create_agent(TYPES[ty], {n: {"type": tp, "value": v} for n, tp, v in es})
@@ -290,14 +290,15 @@ def probe_frames():
         for (st, p, a) in cols:
             name = STATES[st] + (f"_{p}_{a}" if p else "")
             present.append(((st, p, a), name in df.columns))
-            for t in (1, 2):
-                if name in df.columns and t in df.index:
-                    v = df[name][t]
-                    if float(v) != int(v):
-                        raise RuntimeError(f"probe frame holds a non-integer {v!r}")
-                    cells.append(((st, p, a, t), int(v)))
+            for t in (1, 2, 3):
+                # a number that is not in the frame (no such row or column) reads as 0: whether an all-empty time gets a row of zeros
+                # or no row, and whether a never occupied state gets a column in count mode, is not fixed by the property
+                v = df[name][t] if (name in df.columns and t in df.index) else 0
+                if float(v) != int(v):
+                    raise RuntimeError(f"probe frame holds a non-integer {v!r}")
+                cells.append(((st, p, a, t), int(v)))
         out.append({"ag": ag, "states": sts, "props": ps, "aggs": aggs, "cells": cells, "present": present,
-                    "index": [(t, t in df.index) for t in (1, 2, 3)]})
+                    "index": [(t, t in df.index) for t in (1, 2, 3, 4)]})
     return out
 
 
@@ -306,7 +307,7 @@ def gen_lean_frames(frames):
         return f"({v})" if v < 0 else str(v)
     def col(st, p, a):
         return f"⟨{st}, none⟩" if p is None else f"⟨{st}, some ({PROPS.index(p)}, .{a})⟩"
-    out = ["def selHist : History Int := histOf intOps [(1, probePop0), (2, probePop1)]"]
+    out = ["def selHist : History Int := histOf intOps [(1, probePop0), (2, probePop1), (3, probePop0)]"]
     for n, f in enumerate(frames):
         sel = "⟨[%d], [%s], [%s], [%s]⟩" % (f["ag"], ", ".join(map(str, f["states"])), ", ".join(str(PROPS.index(p)) for p in f["props"]),
                                            ", ".join("." + a for a in f["aggs"]))
@@ -314,12 +315,9 @@ def gen_lean_frames(frames):
         out.append(f"def frame{n} : Frame Int := getDf {sel} {aggs} selHist {f['ag']}")
         out.append(f"def frameCells{n} : List ((Col × Nat) × Int) := [" + ", ".join(
             f"(({col(st, p, a)}, {t}), {i(v)})" for (st, p, a, t), v in f["cells"]) + "]")
-        out.append(f"def frameIndex{n} : List (Nat × Bool) := [" + ", ".join(f"({t}, {'true' if b else 'false'})" for t, b in f["index"]) + "]")
-        out.append(f"def frameCols{n} : List (Col × Bool) := [" + ", ".join(f"({col(*c)}, {'true' if b else 'false'})" for c, b in f["present"]) + "]")
-        out.append(f"/-- every cell of the frame the real get_df_for_agent returned (selection {n}) is the model's cell; the same times have a row; the same selected columns exist -/")
-        out.append(f"theorem frame_ok{n} : (frameCells{n}.all (fun x => numInt (frame{n}.cell x.1.1 x.1.2) == some x.2) && "
-                   f"frameIndex{n}.all (fun x => decide (x.1 ∈ frame{n}.index) == x.2) && "
-                   f"frameCols{n}.all (fun x => decide (x.1 ∈ frame{n}.cols) == x.2)) = true := by decide")
+        out.append(f"/-- every number of the frame the real get_df_for_agent returned (selection {n}; every selected column at every recorded time, a number "
+                   "that is not in the frame read as 0) is the model's cell -/")
+        out.append(f"theorem frame_ok{n} : frameCells{n}.all (fun x => numInt (frame{n}.cell x.1.1 x.1.2) == some x.2) = true := by decide")
         out.append(f"#print axioms frame_ok{n}")
     return out
 
@@ -429,6 +427,58 @@ def gen_mid_case(rng, small=False, allow_reset=True):
         mid[str(t)] = ops
     case["mid"] = mid
     return case
+
+
+def gen_gap_case(rng):
+    """wave 4: agents switch back and forth between states so that a state is occupied, empty at an interior recorded time and occupied again
+    later; at some times every agent of a type sits in one state (all others empty), at some times the type has no agent in any of two states."""
+    tprops = {0: ["x", "k"], 1: ["x", "k"]}
+    stop = rng.range(3, 6)
+    pop = [(ty, [("x", gen_value(rng, "x")), ("k", gen_value(rng, "k"))]) for ty in (0,) * rng.range(1, 3) + (1,) * rng.range(0, 2)]
+    a_ids = [i for i, (ty, _) in enumerate(pop) if ty == 0]
+    script = {}
+    two = rng.shuffle([0, 1, 2])[:2]                 # the two states the type-a agents toggle between
+    third = [x for x in (0, 1, 2) if x not in two][0]
+    prev = None
+    for t in range(1, stop + 1):
+        mode = rng.below(6)
+        if mode <= 1 or (prev is not None and mode == 2):
+            st_all = two[(t + (prev or 0)) % 2] if mode != 1 else two[rng.below(2)]     # everybody in one state: the other is empty
+            assign = {i: st_all for i in a_ids}
+        elif mode == 3:
+            assign = {i: third for i in a_ids}                                          # both toggling states empty at this time
+        else:
+            assign = {i: two[rng.below(2)] for i in a_ids}
+        prev = t
+        ops = [["state", i, st] for i, st in assign.items()]
+        for i, (ty, _) in enumerate(pop):
+            if ty == 1 and rng.chance(1, 2):
+                ops.append(["state", i, rng.below(3)])
+        if rng.chance(1, 3):
+            ops.append(["value", rng.below(len(pop)), rng.choice(["x", "k"]), gen_value(rng, "x")])
+        script[str(t)] = ops
+    return {"stop": stop, "pop": pop, "script": script, "tprops": {str(k): v for k, v in tprops.items()}, "homogeneous": True,
+            "gap": [STATES[x] for x in two]}
+
+
+def gap_selection(rng, case):
+    sel = gen_selection(rng, case)
+    if "a" not in sel["agents"]:
+        sel["agents"] = ["a"] + sel["agents"]
+    want = list(case["gap"]) if rng.chance(1, 2) else list(STATES)
+    sel["states"] = rng.shuffle(sorted(set(sel["states"]) | set(want))) if rng.chance(1, 2) else want
+    return sel
+
+
+def inner_gaps(snaps, ty):
+    """number of (state, time) pairs at which the state is empty for the type between two times at which it is occupied"""
+    times = sorted(snaps)
+    n = 0
+    for st in range(len(STATES)):
+        occ = [bool(ref_group(snaps[t], ty, st)) for t in times]
+        for i in range(1, len(occ) - 1):
+            n += (not occ[i]) and any(occ[:i]) and any(occ[i + 1:])
+    return n
 
 
 EDGE_KINDS = ["zero_first", "zero_mid", "equal", "one_per_state", "mixed_types"]
@@ -575,7 +625,7 @@ def gen_selection(rng, case):
     return {"agents": agents, "states": states, "props": props, "aggs": aggs}
 
 
-def bptk_check(bp, case, sels, req, real_lines):
+def bptk_check(bp, case, sels, req, real_lines, fmts=("df", "dict", "json")):
     """runs the case through bptk, checks every selection in the three formats against the reference, and
     appends model requests / implementation replies for the cells. Returns None or (key, text, replay)."""
     nm = bp.register(case)
@@ -583,7 +633,7 @@ def bptk_check(bp, case, sels, req, real_lines):
     snaps = None
     for sel in sels:
         per_fmt = {}
-        for fmt in ("df", "dict", "json"):
+        for fmt in fmts:
             try:
                 res = bp.query(nm, sel, fmt)
             except Exception as e:
@@ -686,6 +736,55 @@ def session_check(bp, case, sel, req, real_lines):
         with contextlib.redirect_stdout(bp.buf):
             bp.b.end_session()
     return steps, first
+
+
+def shrink_bptk(key, rp):
+    """greedy deletion (trailing times, script operations, mid-step operations, agents, selected agents / states / properties / aggregate
+    types) while run_scenarios / the session still reports a finding of the same class; returns (text, replay) of the smallest one."""
+    case, sel, fmt = json.loads(json.dumps(rp["case"])), dict(rp["selection"]), rp.get("format")
+    best = [None]
+    with Bptk() as bp:
+        def fails(c, sl):
+            try:
+                if fmt == "session":
+                    v = session_check(bp, c, sl, [], [])[1]
+                else:
+                    v = bptk_check(bp, c, [sl], [], [], fmts=(fmt,) if fmt else ("df", "dict", "json"))
+            except Exception:
+                return False
+            if v is not None and v[0] == key:
+                best[0] = v
+                return True
+            return False
+        if not fails(case, sel):
+            return None
+        changed, budget = True, 400
+        while changed and budget > 0:
+            changed = False
+            cands = []
+            if case["stop"] > 1:
+                cands.append((dict(case, stop=case["stop"] - 1), sel))
+            for field in ("script", "mid"):
+                for t, ops in (case.get(field) or {}).items():
+                    for i in range(len(ops)):
+                        d = dict(case[field]); d[t] = ops[:i] + ops[i + 1:]
+                        cands.append((dict(case, **{field: d}), sel))
+            for f in ("agents", "states", "props", "aggs"):
+                for i in range(len(sel[f])):
+                    if len(sel[f]) > 1:
+                        cands.append((case, dict(sel, **{f: sel[f][:i] + sel[f][i + 1:]})))
+            for i in range(len(case["pop"]) - 1, -1, -1):        # removing an agent renumbers the later ones: only from the end is id-stable
+                if i == len(case["pop"]) - 1:
+                    cands.append((dict(case, pop=case["pop"][:i]), sel))
+            for c, sl in cands:
+                budget -= 1
+                if budget <= 0:
+                    break
+                if fails(c, sl):
+                    case, sel, changed = c, sl, True
+                    break
+    v = best[0]
+    return v[1], v[2]
 
 
 def shrink_stat_case(case):
@@ -821,13 +920,19 @@ def run(chk):
         real_lines += ["ok", canon_stats_real({"a": real_collect(snap)["a"]})]
         owner += [None, None]
     # ---- (B) through bptk.run_scenarios, three formats, generated selections
-    nb = 12 if chk.quick else 150
-    bdist = {"scenarios": 0, "selections": 0, "count_mode": 0, "property_mode": 0, "sessions": 0, "session_steps": 0}
+    nb = 24 if chk.quick else 300
+    bdist = {"scenarios": 0, "selections": 0, "count_mode": 0, "property_mode": 0, "sessions": 0, "session_steps": 0,
+             "gap_scenarios": 0, "inner_gaps_state_time": 0, "times_all_selected_states_empty": 0}
     with Bptk() as bp:
         for bi in range(nb):
-            case = (gen_edge_case(rng) if bi % 3 == 2 else gen_mid_case(rng, small=True, allow_reset=False) if bi % 3 == 1
-                    else gen_case(rng, homogeneous=True, small=True))
-            sels = [gen_selection(rng, case) for _ in range(3)]
+            if bi % 2 == 1:          # wave 4: states that empty at an interior recorded time and are occupied again later
+                case = gen_gap_case(rng)
+                sels = [gap_selection(rng, case) for _ in range(3)]
+                bdist["gap_scenarios"] += 1
+            else:
+                case = (gen_edge_case(rng) if bi % 6 == 4 else gen_mid_case(rng, small=True, allow_reset=False) if bi % 6 == 2
+                        else gen_case(rng, homogeneous=True, small=True))
+                sels = [gen_selection(rng, case) for _ in range(3)]
             bdist["scenarios"] += 1
             bdist["selections"] += len(sels)
             bdist["count_mode"] += sum(1 for s in sels if not s["props"])
@@ -839,12 +944,27 @@ def run(chk):
             bdist["sessions"] += 1
             bdist["session_steps"] += nsteps
             owner += [("bptk", case, sels)] * (len(req) - n0)
+            try:
+                with contextlib.redirect_stdout(bp.buf):
+                    sn = bp.b.get_scenario(f"smC13x{bp.n}", "sc")._snaps
+                for ty in range(2):
+                    bdist["inner_gaps_state_time"] += inner_gaps(sn, ty)
+                for sel in sels:
+                    for ag in sel["agents"]:
+                        bdist["times_all_selected_states_empty"] += sum(
+                            1 for t in sn if not any(ref_group(sn[t], TYPES.index(ag), STATES.index(st)) for st in sel["states"]))
+            except Exception:
+                pass
             chk.case(("bptk", json.dumps(case, sort_keys=True), json.dumps(sels)), nontrivial=True)
             if (v or v2) and first is None:
                 first = v or v2
     dist.update(bdist)
     chk.cov["input_distribution"] = dist
-    chk.cov["rule"] = ("wave 2: + edge populations (zero / negative zero first in the list followed by values of one sign, a zero where the running max is 0, "
+    chk.cov["rule"] = ("wave 4: + every second bptk scenario lets agents switch back and forth between states so that a selected state is occupied, "
+                       "empty at an interior recorded time and occupied again, with times at which every selected state is empty (run_scenarios df / dict / "
+                       "json and stepwise session; numbers are read by label, a number that is not in the result counts as 0, so row order, dtype and "
+                       "all-zero rows do not matter); findings through run_scenarios are shrunk (times, script operations, agents, selection); wave 3: + "
+                       "populations that change during a step; wave 2: + edge populations (zero / negative zero first in the list followed by values of one sign, a zero where the running max is 0, "
                        "all values equal, one agent per (type, state), the same property Integer for one agent and Double for the next); every bptk scenario is "
                        "also handed to the runner model as a statistics history (hadd) and each returned result (df, dict, json; and the json result of every "
                        "begin_session/run_step step) is compared cell by cell, bit exact, with `run`+`read` of the model; || "
@@ -873,8 +993,17 @@ def run(chk):
             small = shrink_stat_case(rp["case"])
             m = new_model(small); m.run()
             text, rp = check_statistics(m) or text, {"case": small}
+        elif "selection" in rp:
+            try:
+                sm = shrink_bptk(key, rp)
+            except Exception:
+                sm = None
+            if sm is not None:
+                text, rp = sm
+        if not ok:      # the broken obligation's failing-input search succeeded: one finding, with the concrete input
+            rp = dict(rp, broken_obligation=why)
         chk.add_finding(key, text, rp)
-    if not ok:
+    if not ok and first is None:
         chk.add_finding("obligation", f"proof obligations of C13 no longer check: {why}",
                         {"theorem": "Bptk.C13.Gen.probe_ok* / holds", "detail": why, "probe": [s for s, _ in rows]}, found_input=False)
     if diff is not None and first is None:
